@@ -29,12 +29,12 @@ theorem alt_flush_term (r : RState) (t : Term) (halt : r.altActive = true) (hon 
     (hw : r.width = t.w) (hh : r.height = t.h) (hw1 : 1 ≤ t.w) (hh1 : 1 ≤ t.h)
     (hne : (r.buf.isEmpty || r.buf == r.lastRender) = false)
     (hskip : ∀ j l, (frameLines r)[j]? = some l → sameAsLast r j l = true →
-      rowShows t.w t.alt (t.alt.top + j) l) :
+      rowShows t.w t.alt (t.alt.top + j) (Ansi.visible l)) :
     ∀ t', t' = applyOps t (flush r).2 →
     t'.onAlt = true ∧ t'.w = t.w ∧ t'.h = t.h ∧ t'.main = t.main ∧
     t'.alt.top = t.alt.top ∧ t'.alt.cr = t.alt.top + (frameLines r).length - 1 ∧
     t'.alt.cc = 0 ∧ t'.alt.pw = false ∧
-    (∀ j l, (frameLines r)[j]? = some l → rowShows t.w t'.alt (t.alt.top + j) l) ∧
+    (∀ j l, (frameLines r)[j]? = some l → rowShows t.w t'.alt (t.alt.top + j) (Ansi.visible l)) ∧
     (∀ ρ, ρ < t.alt.top → ∀ c, t'.alt.cells ρ c = t.alt.cells ρ c) ∧
     (¬ r.altLinesRendered > (frameLines r).length → ∀ ρ, t.alt.top + (frameLines r).length ≤ ρ →
       ∀ c, t'.alt.cells ρ c = t.alt.cells ρ c) ∧
@@ -86,7 +86,7 @@ structure AltInv (r : RState) (t : Term) : Prop where
   hpos : 1 ≤ t.h
   below : ∀ i, r.altLinesRendered ≤ i → i < t.h → rowBlank t.w t.alt (t.alt.top + i)
   cache : ∀ ls, r.lastLines = some ls → ls.length = r.altLinesRendered ∧
-      ∀ i l, ls[i]? = some l → rowShows t.w t.alt (t.alt.top + i) l
+      ∀ i l, ls[i]? = some l → rowShows t.w t.alt (t.alt.top + i) (Ansi.visible l)
   render : r.lastRender ≠ [] → r.lastLines = some (frameOf r.height r.lastRender)
 
 theorem AltInv.write {r : RState} {t : Term} (h : AltInv r t) (s : Bytes) : AltInv (write r s) t :=
@@ -166,7 +166,7 @@ are exactly the cached lines (cut and padded), the remaining window rows are bla
 theorem AltInv.screen {r : RState} {t : Term} (h : AltInv r t) {ls : List Line}
     (hls : r.lastLines = some ls) :
     ls.length = r.altLinesRendered ∧
-    (∀ i l, ls[i]? = some l → t.alt.row t.w (t.alt.top + i) = padLine t.w l) ∧
+    (∀ i l, ls[i]? = some l → t.alt.row t.w (t.alt.top + i) = padLine t.w (Ansi.visible l)) ∧
     (∀ i, ls.length ≤ i → i < t.h → t.alt.row t.w (t.alt.top + i) = List.replicate t.w 32) := by
   obtain ⟨c1, c2⟩ := h.cache ls hls
   refine ⟨c1, ?_, ?_⟩
